@@ -157,6 +157,7 @@ def run_det_family(prop, tier, seed):
              "twin": twin and i % 3 == 0} for i in range(nwl)]
     violations = _collect(prop, ev, pool_imap(family_det.run_job, jobs))
     violations += _add_real_family(prop, tier, seed, ev)
+    _probe_gate(prop, tier, ev)
     if ev.counters.get("class_never_linked", 0) > nwl // 4:
         ev.write()
         raise HarnessError("too many determinism classes never linked: generator problem")
@@ -345,8 +346,15 @@ REQUIRED_PROBES = {
             "inwindow_role_nested-linker-script",
             "detected", "window_after-verify-start"],
     "C17": ["fault_fired_fsize", "fault_fired_panic", "fault_fired_abort", "fault_fired_alloc", "fault_fired_segv",
-            "fault_fired_kill", "fault_fired_err", "fork", "nofork"],
-    "C18": ["probe_error_exit_before_creator_ran", "fault_fired_err", "prior_busy"],
+            "fault_fired_kill", "fault_fired_err", "fork", "nofork", "sysfault_profiles",
+            "fault_fired_sys_open", "fault_fired_sys_write", "fault_fired_sys_mmap",
+            "fault_fired_sys_statx", "fault_fired_sys_close", "fault_fired_sys_fchmod",
+            "fault_fired_sys_ftruncate", "fault_fired_sys_fork", "fault_fired_sys_pipe",
+            "fault_fired_sys_rename", "fault_fired_sys_unlink"],
+    "C18": ["probe_error_exit_before_creator_ran", "fault_fired_err", "prior_busy", "sysfault_profiles",
+            "fault_fired_sys_open", "fault_fired_sys_mmap"],
+    "C06": ["sysfault_rules_fired", "prior_busy", "prior_ff-longer", "prior_aa-exact", "class_tls",
+            "class_dyn", "class_script", "class_big", "class_str", "class_graph"],
     "C19": ["prior_busy", "probe_busy_output_relinked", "pairs_interleaved", "same_output_pairs",
             "mode_split", "mode_atomic"],
     "C03": ["probe_take_lost", "big_object_classes", "activations"],
